@@ -24,6 +24,28 @@
 //   against the reference 1e-8; derivatives 1e-6 relative + 1e-9 against the dual-number reference;
 //   finite differences (Richardson, h1 = 2^-7, h2 = 2^-5): 1e-4*(1+|d|+L) (a coarse sign / missing-term check; worst seen 2e-6).
 //   The worst observed value of each, as a fraction of its tolerance, is recorded with c.observe.
+//
+// Known findings (known_findings.d/C13.json; each is excluded at the narrowest point, mostly by not executing / not
+// checking the one query that falls into the class, so that the rest of the case is still checked):
+//   C13-lowmem-chunk1                    low-memory variant, chunk size 1, >= 2 sites (heap overflow)          L1_lowmem_chunk1
+//   C13-scaled-underflow                 scaled recursions flush state weights below 1e-308 (sparse rows + extreme emissions);
+//                                        only the Rescaled/LowMemory answers are skipped, predicate from the log-space reference
+//   C13-rescaled-deriv-underflow         Rescaled derivative quotients formed from underflowing products
+//   C13-rescaled-d2-accumulators         Rescaled computeD2Forward_ resets the first-order accumulators
+//   C13-rescaled-d2-needs-d1             Rescaled second derivative reads first-order arrays it did not compute
+//   C13-derivative-cache-stale           derivative cache keyed by the variable name survives parameter / break point changes
+//   C13-lowmem-derivative-cached         second identical derivative query on the low-memory variant returns -0 instead of raising
+//   C13-logsum-max-aliasing              `num -= num[whichMax(num)]` subtracts a reference into the vector being modified
+//   C13-logsum-d2-emission-term          Logsum second derivative drops d2 log e inside a segment
+//   C13-logsum-deriv-underflow           Logsum derivative weights leave log space (0/0 for states behind negligible predecessors)
+//   C13-autocorr-equilibrium             AutoCorrelationTransitionMatrix equilibrium = 0.95 in every cell
+//   C13-full-uptodate-flag               FullHmmTransitionMatrix::getPij() sets the flag getEquilibriumFrequencies() tests
+//   C13-full-settransitionprobabilities  setTransitionProbabilities doubles the row prefix: own parameters never updated
+//   C13-full-equilibrium-p256            equilibrium = row 0 of P^256, not stationary for slowly mixing chains
+// The generator shapes `special` (log-linear emissions, last state dominant) exist to keep Logsum derivative checks
+// alive outside the classes of C13-logsum-d2-emission-term and C13-logsum-max-aliasing.
+// With the fixes proposed in known_findings.d/C13.json applied to a scratch copy, every law passes with only
+// C13-scaled-underflow left as known.
 #include "common/pbt.hpp"
 #include "common/bppcommon.hpp"
 
@@ -483,7 +505,7 @@ void agree(vf::Ctx& c, const vector<pair<string, double>>& vals) {
 }
 }  // namespace
 
-LAW(L1_loglik_paths, RC, 2400, 100000, 480, ">=1 break point, or a zero transition, or an emission below 1e-100, or a chunk size below the length") {
+LAW(L1_loglik_paths, RC, 4000, 150000, 480, ">=1 break point, or a zero transition, or an emission below 1e-100, or a chunk size below the length") {
   bool hasZero, hasExtreme;
   GenOpt o; o.maxL = 12; o.maxPaths = c.oneIn(24) ? 2000000 : 40000;
   Spec s = genSpec(c, o, hasZero, hasExtreme);
@@ -518,7 +540,7 @@ LAW(L1_lowmem_chunk1, RC, 200, 10000, 480, "always (chunk size 1 below the lengt
   checkLogLik(c, *ob.lik, lg.logL, "LowMemory(chunk 1)");
 }
 
-LAW(L1_long, RC, 160, 8000, 64, "always (13..5000 sites: chunk sizes below the length, seeded emission table)") {
+LAW(L1_long, RC, 200, 8000, 64, "always (13..5000 sites: chunk sizes below the length, seeded emission table)") {
   bool hasZero, hasExtreme;
   Spec s; s.n = 1 + static_cast<int>(c.below(5));
   s.L = static_cast<int>(std::floor(c.logu(13, 5001))); if (s.L > 5000) s.L = 5000;
@@ -556,7 +578,7 @@ Spec genSmallOrMedium(vf::Ctx& c, bool& hasZero, bool& hasExtreme, bool& medium,
 }
 }  // namespace
 
-LAW(L2_posteriors, RC, 2400, 100000, 480, ">=1 break point, or a zero transition, or an emission below 1e-100") {
+LAW(L2_posteriors, RC, 4000, 150000, 480, ">=1 break point, or a zero transition, or an emission below 1e-100") {
   bool hasZero, hasExtreme, medium;
   Spec s = genSmallOrMedium(c, hasZero, hasExtreme, medium, 150);
   describe(c, s);
@@ -654,7 +676,7 @@ DerivGuards derivGuards(vf::Ctx& c, int alg, const Spec& s, const Ref& r, const 
 }
 }  // namespace
 
-LAW(L4_derivatives, RC, 2400, 100000, 480, ">=1 break point, or a zero transition, or an emission below 1e-100, or two emission parameters") {
+LAW(L4_derivatives, RC, 4000, 150000, 480, ">=1 break point, or a zero transition, or an emission below 1e-100, or two emission parameters") {
   bool hasZero, hasExtreme;
   GenOpt o; o.maxL = 12;
   Spec s = genSpec(c, o, hasZero, hasExtreme);
@@ -700,7 +722,7 @@ LAW(L4_derivatives, RC, 2400, 100000, 480, ">=1 break point, or a zero transitio
   }
 }
 
-LAW(L4_d2_alone, RC, 600, 30000, 480, "always: a second derivative asked before any first derivative of that variable") {
+LAW(L4_d2_alone, RC, 1000, 30000, 480, "always: a second derivative asked before any first derivative of that variable") {
   bool hasZero, hasExtreme;
   GenOpt o; o.maxL = 6;
   Spec s = genSpec(c, o, hasZero, hasExtreme);
@@ -736,7 +758,7 @@ struct Hist {
 vector<size_t> genBreakSubset(vf::Ctx& c, int L) { vector<size_t> bp; int mode = static_cast<int>(c.below(3)); for (int t = 1; t < L; ++t) if (mode == 0 ? false : mode == 1 ? c.below(3) == 2 : c.flag()) bp.push_back(static_cast<size_t>(t)); return bp; }
 }  // namespace
 
-LAW(L5_history, RC, 5000, 250000, 520, "a changed parameter value or new break points between two derivative queries, or >=1 break point, or a zero transition, or an emission below 1e-100") {
+LAW(L5_history, RC, 8000, 300000, 520, "a changed parameter value or new break points between two derivative queries, or >=1 break point, or a zero transition, or an emission below 1e-100") {
   bool hasZero, hasExtreme;
   GenOpt o; o.maxL = 8;
   Spec cur = genSpec(c, o, hasZero, hasExtreme);
@@ -839,27 +861,25 @@ LAW(L5_history, RC, 5000, 250000, 520, "a changed parameter value or new break p
         int which = static_cast<int>(c.below(static_cast<uint64_t>(1 + np))); double v; string name;
         if (which == 0) { name = "lam"; v = c.pick({0.0, 0.25, 0.5, 0.75, 1.0}); } else { name = varName(which - 1); v = genTheta(c); }
         if (c.oneIn(4)) v = which == 0 ? cur.lam : cur.th[which - 1];   // unchanged value
-        bool changed = which == 0 ? v != cur.lam : v != cur.th[which - 1];
         c.desc << "setParameterValue(" << name << "," << v << ")";
         ob.lik->setParameterValue(name, v);
         if (which == 0) cur.lam = v; else cur.th[which - 1] = v;
-        stateChanged(true); (void)changed;   // setParameterValue notifies even when the value is the same
+        stateChanged(true);   // setParameterValue notifies even when the value is the same
         break; }
-      case 1: {  // several parameters at once
+      case 1: {  // several parameters at once, listed in the order of the object's own list
         ParameterList pl; bool any = false; int route = static_cast<int>(c.below(4));
         c.desc << (route == 0 ? "setParametersValues{" : route == 1 ? "matchParametersValues{" : route == 2 ? "setAllParametersValues{" : "setParameters{");
-        Spec nxt = cur;
-        for (int which = 0; which <= np; ++which) {
-          bool in = route == 2 || c.flag(); double v = which == 0 ? c.pick({0.0, 0.25, 0.5, 0.75, 1.0}) : genTheta(c);
+        Spec nxt = cur; const ParameterList& own = ob.lik->getParameters();
+        for (size_t q = 0; q < own.size(); ++q) {
+          string nm = own[q].getName(); int which = nm == "lam" ? 0 : nm == "th1" ? 1 : 2;
+          bool in = c.flag() || route == 2;   // setAllParametersValues documents "exactly the same parameters"
+          double old = which == 0 ? cur.lam : cur.th[which - 1], v = which == 0 ? c.pick({0.0, 0.25, 0.5, 0.75, 1.0}) : genTheta(c);
+          if (c.oneIn(4)) v = old;
           if (!in) continue;
-          string name = which == 0 ? "lam" : varName(which - 1);
-          if (which == 0) { any |= v != cur.lam; nxt.lam = v; } else { any |= v != cur.th[which - 1]; nxt.th[which - 1] = v; }
-          c.desc << name << "=" << v << " ";
+          any |= v != old; (which == 0 ? nxt.lam : nxt.th[which - 1]) = v;
+          pl.addParameter(Parameter(nm, v)); c.desc << nm << "=" << v << " ";
         }
         c.desc << "}";
-        // lists in the order of the object's own list (setAllParametersValues documents "exactly the same parameters")
-        const ParameterList& own = ob.lik->getParameters();
-        for (size_t q = 0; q < own.size(); ++q) { string nm = own[q].getName(); double v = nm == "lam" ? nxt.lam : nm == "th1" ? nxt.th[0] : nxt.th[1]; bool listed = route == 2 || (nm == "lam" ? nxt.lam != cur.lam : nm == "th1" ? nxt.th[0] != cur.th[0] : nxt.th[1] != cur.th[1]) || c.flag(); if (listed) pl.addParameter(Parameter(nm, v)); else { if (nm == "lam") nxt.lam = cur.lam; else if (nm == "th1") nxt.th[0] = cur.th[0]; else nxt.th[1] = cur.th[1]; } }
         bool fired = true;
         if (route == 0) ob.lik->setParametersValues(pl); else if (route == 1) fired = ob.lik->matchParametersValues(pl); else if (route == 2) ob.lik->setAllParametersValues(pl); else ob.lik->setParameters(pl);
         if (route == 1) CHECK(fired == any, who << ": matchParametersValues returned " << fired << " although " << (any ? "a value changed" : "no value changed"));
@@ -1019,7 +1039,7 @@ void builtinRound(vf::Ctx& c, BT& b, int route, int preset, const vector<int>& q
 }
 }  // namespace
 
-LAW(L6_builtin_matrix, RC, 3000, 150000, 160, "the equilibrium vector is asked after getPij(), or a slowly mixing chain, or >=2 parameter changes") {
+LAW(L6_builtin_matrix, RC, 5000, 150000, 160, "the equilibrium vector is asked after getPij(), or a slowly mixing chain, or >=2 parameter changes") {
   bool full = !c.flag(); size_t n = full ? 1 + c.below(5) : 2 + c.below(4);   // auto-correlation needs "other states": n >= 2
   c.desc << (full ? "FullHmmTransitionMatrix" : "AutoCorrelationTransitionMatrix") << " n=" << n;
   BT b = makeBT(full, n);
@@ -1050,7 +1070,7 @@ LAW(L6_builtin_enum, ENUM, 1, 1, 0, "the equilibrium vector is asked after getPi
 }
 
 // =================================================================================== L7: likelihoods over the built-in transition models
-LAW(L7_builtin_loglik, RC, 1500, 60000, 480, "always (built-in transition model, every entry >= 0.2/n)") {
+LAW(L7_builtin_loglik, RC, 3000, 100000, 480, "always (built-in transition model, every entry >= 0.2/n)") {
   bool full = c.weighted({3, 1}) == 0; size_t n = full ? 1 + c.below(5) : 2 + c.below(4);
   c.desc << (full ? "FullHmmTransitionMatrix" : "AutoCorrelationTransitionMatrix") << " n=" << n;
   if (!full) c.excludeIfKnown("C13-autocorr-equilibrium");   // every likelihood starts from that vector
